@@ -1,61 +1,650 @@
 package main
 
-// Goroutines, channels, select, mutexes. (phase 1: single goroutine only)
+// Goroutines, channels, select, mutexes, contexts for the dag package.
+//
+// Interpreted goroutines are host goroutines passing a baton: exactly one runs
+// and the run is a deterministic function of the decision trace. Policy
+// (DESIGN.md 2.8, "maximal intervals"): a spawned goroutine runs at once until
+// it parks at the harness' vYield (first attempt of its task function: the task
+// counts as entered), is about to send on a channel nobody receives from, or
+// blocks on a full channel / held mutex. The goroutine executing the
+// scheduler loop is the only one that chooses: at a select with default and
+// no ready case it either takes default or delivers one parked goroutine
+// (lets it finish its task and send); at time.Sleep a delivery is forced when
+// something is deliverable.
 
 import (
+	"fmt"
 	"go/types"
+	"os"
 
 	"golang.org/x/tools/go/ssa"
 )
 
+type goroutineKilled struct{}
+
 type goroutine struct {
-	id int
+	id       int
+	m        *machine
+	resume   chan bool // true = killed
+	done     bool
+	started  bool
+	park     string // "", "yield", "send", "recv", "mutex", "runnable"
+	waitCh   *chanV
+	sendVal  value
+	recvVal  value
+	recvOK   bool
+	waitMu   *value
+	tag      int64 // harness tag given to vYield
+	yielded  bool
+	returnTo *goroutine
+	fn       value
+	args     []value
 }
 
-type scheduler struct{}
+type scheduler struct {
+	gs       []*goroutine
+	main     *goroutine
+	runq     []*goroutine
+	pending  interface{} // engine panic raised in a non-main goroutine
+	mutexes  map[*value]*mutexState
+	idle     int
+	chanSeq  int
+	delivery []int64 // tags of delivered goroutines, in order (for native replay)
+}
+
+type mutexState struct {
+	owner   *goroutine
+	waiters []*goroutine
+}
 
 type chanV struct {
 	id       int
 	capacity int64
 	buf      []value
 	closed   bool
+	sendq    []*goroutine
+	recvq    []*goroutine
+}
+
+type ctxState struct {
+	parent *ctxState
+	done   *chanV
+	err    string
+	key    value
+	keyT   types.Type
+	val    value
 }
 
 func (m *machine) startMain(entry *ssa.Function) {
+	m.sched = &scheduler{mutexes: map[*value]*mutexState{}}
+	g0 := &goroutine{id: 0, m: m, resume: make(chan bool), started: true}
+	m.sched.main = g0
+	m.sched.gs = append(m.sched.gs, g0)
+	m.cur = g0
+	defer m.killAll()
 	m.callSSA(nil, 0, entry, nil, nil)
 }
 
-func (m *machine) spawn(fr *frame, instr *ssa.Go, fn value, args []value) {
-	panic(cut{"goroutines not supported yet"})
+// killAll terminates the host goroutines of interpreted goroutines that are
+// still parked when the run ends.
+func (m *machine) killAll() {
+	if m.sched == nil {
+		return
+	}
+	for _, g := range m.sched.gs {
+		if g != m.sched.main && g.started && !g.done {
+			g.resume <- true
+			<-m.sched.main.resume
+		}
+	}
 }
 
+// switchTo hands the baton to g and waits until it comes back.
+func (m *machine) switchTo(g *goroutine) {
+	cur := m.cur
+	g.returnTo = cur
+	m.cur = g
+	g.park = ""
+	if !g.started {
+		g.started = true
+		go m.goroutineBody(g)
+	} else {
+		g.resume <- false
+	}
+	if killed := <-cur.resume; killed {
+		panic(goroutineKilled{})
+	}
+	m.cur = cur
+	if p := m.sched.pending; p != nil {
+		m.sched.pending = nil
+		panic(p)
+	}
+}
+
+func (m *machine) goroutineBody(g *goroutine) {
+	defer func() {
+		r := recover()
+		g.done = true
+		if r != nil {
+			if _, ok := r.(goroutineKilled); ok {
+				m.sched.main.resume <- false
+				return
+			}
+			// a panic in a goroutine ends the run like a panic anywhere else
+			if m.sched.pending == nil {
+				m.sched.pending = r
+			}
+		}
+		g.returnTo.resume <- false
+	}()
+	m.call(nil, 0, g.fn, g.args)
+}
+
+// parkCur parks the running goroutine and returns the baton to whoever resumed it.
+func (m *machine) parkCur(why string) {
+	g := m.cur
+	if g == m.sched.main {
+		panic(unwindOverflow{"the scheduling goroutine blocks forever (" + why + ")"})
+	}
+	g.park = why
+	g.returnTo.resume <- false
+	if killed := <-g.resume; killed {
+		panic(goroutineKilled{})
+	}
+	m.cur = g
+}
+
+// drain runs goroutines that became runnable (eagerly, in id order).
+func (m *machine) drain() {
+	for len(m.sched.runq) > 0 {
+		g := m.sched.runq[0]
+		m.sched.runq = m.sched.runq[1:]
+		if g.done {
+			continue
+		}
+		m.switchTo(g)
+	}
+}
+
+func (m *machine) makeRunnable(g *goroutine) {
+	g.park = "runnable"
+	m.sched.runq = append(m.sched.runq, g)
+}
+
+func (m *machine) spawn(fr *frame, instr *ssa.Go, fn value, args []value) {
+	if m.sched == nil {
+		panic(cut{"goroutine outside a scheduled run"})
+	}
+	if len(m.sched.gs) > 64 {
+		panic(unwindOverflow{"more than 64 goroutines"})
+	}
+	g := &goroutine{id: len(m.sched.gs), m: m, resume: make(chan bool), fn: fn, args: args, tag: -1}
+	m.sched.gs = append(m.sched.gs, g)
+	if m.cur == m.sched.main {
+		m.switchTo(g) // runs until it parks
+		m.drain()
+	} else {
+		m.makeRunnable(g)
+	}
+}
+
+// ---------- channels ----------
+
 func (m *machine) makeChan(size value) *chanV {
-	panic(cut{"channels not supported yet"})
+	n := asInt64(size)
+	if n < 0 {
+		panic(m.runtimeError("makechan: size out of range"))
+	}
+	if m.sched != nil {
+		m.sched.chanSeq++
+		return &chanV{id: m.sched.chanSeq, capacity: n}
+	}
+	return &chanV{capacity: n}
+}
+
+func (m *machine) dbg(format string, a ...interface{}) {
+	if os.Getenv("SYMGO_EVENTS") != "" {
+		fmt.Fprintf(os.Stderr, "  sched g%d: "+format+"\n", append([]interface{}{m.cur.id}, a...)...)
+	}
 }
 
 func (m *machine) chanSend(fr *frame, c *chanV, v value) {
-	panic(cut{"channels not supported yet"})
+	m.dbg("send on chan %d (cap %d, buf %d, recvq %d)", c.id, c.capacity, len(c.buf), len(c.recvq))
+	if c == nil {
+		m.parkCur("send on nil channel")
+	}
+	if c.closed {
+		panic(m.runtimeError("send on closed channel"))
+	}
+	if len(c.recvq) > 0 {
+		r := c.recvq[0]
+		c.recvq = c.recvq[1:]
+		r.recvVal, r.recvOK = v, true
+		m.makeRunnable(r)
+		return
+	}
+	if int64(len(c.buf)) < c.capacity {
+		c.buf = append(c.buf, v)
+		return
+	}
+	g := m.cur
+	g.waitCh, g.sendVal = c, v
+	c.sendq = append(c.sendq, g)
+	m.parkCur("send")
+	// resumed: the value has been taken
+}
+
+// takeFromSender completes the send of a parked sender.
+func (m *machine) takeFromSender(c *chanV, g *goroutine) value {
+	for i, s := range c.sendq {
+		if s == g {
+			c.sendq = append(c.sendq[:i:i], c.sendq[i+1:]...)
+			break
+		}
+	}
+	v := g.sendVal
+	g.sendVal, g.waitCh = nil, nil
+	m.makeRunnable(g)
+	return v
+}
+
+func (m *machine) chanRecvNow(c *chanV, elem types.Type) (value, bool, bool) {
+	m.dbg("recv on chan %d (buf %d, sendq %d)", c.id, len(c.buf), len(c.sendq))
+	if len(c.buf) > 0 {
+		v := c.buf[0]
+		c.buf = c.buf[1:]
+		if len(c.sendq) > 0 {
+			s := c.sendq[0]
+			c.buf = append(c.buf, m.takeFromSender(c, s))
+		}
+		return v, true, true
+	}
+	if len(c.sendq) > 0 {
+		s := c.sendq[0]
+		if len(c.sendq) > 1 {
+			s = c.sendq[m.choose(len(c.sendq), "receive-from")]
+		}
+		return m.takeFromSender(c, s), true, true
+	}
+	if c.closed {
+		return zero(elem), false, true
+	}
+	return nil, false, false
 }
 
 func (m *machine) chanRecv(fr *frame, c *chanV, commaOk bool, elem types.Type) value {
-	panic(cut{"channels not supported yet"})
+	if c == nil {
+		m.parkCur("receive from nil channel")
+	}
+	v, ok, ready := m.chanRecvNow(c, elem)
+	if !ready {
+		g := m.cur
+		if g == m.sched.main {
+			// blocking receive in the scheduling goroutine: deliver until something arrives
+			for {
+				if !m.deliverOne("blocking receive") {
+					panic(unwindOverflow{"blocking receive with nothing in flight"})
+				}
+				v, ok, ready = m.chanRecvNow(c, elem)
+				if ready {
+					break
+				}
+			}
+		} else {
+			g.waitCh = c
+			c.recvq = append(c.recvq, g)
+			m.parkCur("recv")
+			v, ok = g.recvVal, g.recvOK
+			g.recvVal = nil
+		}
+	}
+	m.drain()
+	if commaOk {
+		return tuple{v, ok}
+	}
+	return v
 }
 
 func (m *machine) chanClose(c *chanV) {
-	panic(cut{"channels not supported yet"})
+	if c == nil || c.closed {
+		panic(m.runtimeError("close of nil or closed channel"))
+	}
+	c.closed = true
+	for _, r := range c.recvq {
+		r.recvVal, r.recvOK = nil, false
+		m.makeRunnable(r)
+	}
+	c.recvq = nil
+}
+
+// deliverable goroutines: parked at vYield (their task counts as running).
+func (m *machine) yieldParked() []*goroutine {
+	var out []*goroutine
+	for _, g := range m.sched.gs {
+		if !g.done && g.park == "yield" {
+			out = append(out, g)
+		}
+	}
+	return out
+}
+
+// deliverOne lets one yield-parked goroutine continue until it parks again.
+func (m *machine) deliverOne(why string) bool {
+	ys := m.yieldParked()
+	if len(ys) == 0 {
+		return false
+	}
+	g := ys[m.choose(len(ys), "deliver")]
+	m.sched.delivery = append(m.sched.delivery, g.tag)
+	m.sched.idle = 0
+	m.switchTo(g)
+	return true
 }
 
 func (m *machine) doSelect(fr *frame, instr *ssa.Select) value {
-	panic(cut{"select not supported yet"})
+	type cs struct {
+		ch   *chanV
+		recv bool
+		send value
+		elem types.Type
+	}
+	var cases []cs
+	for _, st := range instr.States {
+		c := cs{ch: fr.get(st.Chan).(*chanV), recv: st.Dir == types.RecvOnly}
+		if !c.recv {
+			c.send = fr.get(st.Send)
+		} else {
+			c.elem = st.Chan.Type().Underlying().(*types.Chan).Elem()
+		}
+		cases = append(cases, c)
+	}
+	result := func(chosen int, v value, ok bool) value {
+		r := tuple{int64(chosen), ok}
+		for i, c := range cases {
+			if c.recv {
+				if i == chosen {
+					r = append(r, v)
+				} else {
+					r = append(r, zero(c.elem))
+				}
+			}
+		}
+		return r
+	}
+	ready := func() []int {
+		var rs []int
+		for i, c := range cases {
+			if c.ch == nil {
+				continue
+			}
+			if c.recv {
+				if len(c.ch.buf) > 0 || len(c.ch.sendq) > 0 || c.ch.closed {
+					rs = append(rs, i)
+				}
+			} else if len(c.ch.recvq) > 0 || int64(len(c.ch.buf)) < c.ch.capacity {
+				rs = append(rs, i)
+			}
+		}
+		return rs
+	}
+	for {
+		rs := ready()
+		m.dbg("select blocking=%v cases=%d ready=%v yieldParked=%d", instr.Blocking, len(cases), rs, len(m.yieldParked()))
+		if len(rs) > 0 {
+			i := rs[0]
+			if len(rs) > 1 {
+				i = rs[m.choose(len(rs), "select-case")]
+			}
+			c := cases[i]
+			if c.recv {
+				v, ok, _ := m.chanRecvNow(c.ch, c.elem)
+				m.drain()
+				return result(i, v, ok)
+			}
+			m.chanSend(fr, c.ch, c.send)
+			return result(i, nil, false)
+		}
+		if m.cur != m.sched.main {
+			if !instr.Blocking {
+				return result(-1, nil, false)
+			}
+			panic(cut{"blocking select outside the scheduling goroutine"})
+		}
+		// nothing ready: take default, or deliver one running task
+		ys := m.yieldParked()
+		if !instr.Blocking {
+			if len(ys) == 0 || m.choose(2, "default-or-deliver") == 0 {
+				return result(-1, nil, false)
+			}
+		}
+		if !m.deliverOne("select") {
+			panic(unwindOverflow{"blocking select with nothing in flight"})
+		}
+	}
 }
 
-func hYield(m *machine, fr *frame, args []value) value { return nil }
+// ---------- time, mutex ----------
 
-func hEvent(m *machine, fr *frame, args []value) value { return nil }
+func iSleep(m *machine, fr *frame, args []value) value {
+	if m.sched == nil || m.cur != m.sched.main {
+		return nil
+	}
+	// the scheduler loop found nothing to launch: harness hook (work conservation)
+	if m.onIdle != nil && !isNilValue(m.onIdle) {
+		// only at quiescent points: every finished task has been received
+		pendingCompletion := false
+		for _, g := range m.sched.gs {
+			if !g.done && g.yielded && g.park == "send" {
+				pendingCompletion = true
+			}
+		}
+		if !pendingCompletion {
+			m.call(fr, 0, m.onIdle, nil)
+		}
+	}
+	// fairness: started tasks eventually return
+	if m.deliverOne("sleep") {
+		return nil
+	}
+	// nothing is running a task; goroutines parked at a send will be received
+	// at the next select. If nothing at all is in flight the loop only spins.
+	inFlight := false
+	for _, g := range m.sched.gs {
+		if g != m.sched.main && !g.done {
+			inFlight = true
+		}
+	}
+	if !inFlight {
+		m.sched.idle++
+		if m.sched.idle > 3 {
+			panic(unwindOverflow{"the scheduler loop spins with no task in flight"})
+		}
+	}
+	return nil
+}
+
+func mutexOf(args []value) *value { return args[0].(*value) }
+
+func iMutexLock(m *machine, fr *frame, args []value) value {
+	if m.sched == nil {
+		return nil
+	}
+	mu := mutexOf(args)
+	st := m.sched.mutexes[mu]
+	if st == nil {
+		st = &mutexState{}
+		m.sched.mutexes[mu] = st
+	}
+	m.events = append(m.events, fmt.Sprintf("lock %p g%d", mu, m.cur.id))
+	if st.owner == nil {
+		st.owner = m.cur
+		return nil
+	}
+	st.waiters = append(st.waiters, m.cur)
+	m.cur.waitMu = mu
+	m.parkCur("mutex")
+	return nil
+}
+
+func iMutexUnlock(m *machine, fr *frame, args []value) value {
+	if m.sched == nil {
+		return nil
+	}
+	mu := mutexOf(args)
+	st := m.sched.mutexes[mu]
+	if st == nil || st.owner == nil {
+		panic(targetPanic{iface{t: types.Typ[types.String], v: "sync: unlock of unlocked mutex"}})
+	}
+	st.owner = nil
+	if len(st.waiters) > 0 {
+		w := st.waiters[0]
+		st.waiters = st.waiters[1:]
+		st.owner = w
+		w.waitMu = nil
+		m.makeRunnable(w)
+	}
+	return nil
+}
+
+// ---------- harness API ----------
+
+// vYield(tag): the task function has been entered. On the first call of a
+// goroutine it parks there until the explorer delivers it.
+func hYield(m *machine, fr *frame, args []value) value {
+	if m.sched == nil || m.cur == m.sched.main {
+		return nil
+	}
+	g := m.cur
+	if g.yielded {
+		return nil
+	}
+	g.yielded = true
+	g.tag = asInt64(args[0])
+	m.parkCur("yield")
+	return nil
+}
+
+func hEvent(m *machine, fr *frame, args []value) value {
+	if os.Getenv("SYMGO_EVENTS") != "" {
+		fmt.Fprintf(os.Stderr, "EVENT %s\n", toString(args[0]))
+	}
+	return nil
+}
+
+// ---------- contexts ----------
+
+func (m *machine) ctxValue(st *ctxState) iface {
+	return iface{t: types.Typ[types.Int], v: &opaque{kind: "ctx", data: st}}
+}
+
+func hNewContext(m *machine, fr *frame, args []value) value {
+	st := &ctxState{done: m.makeChan(int64(0))}
+	return m.ctxValue(st)
+}
+
+func hCancel(m *machine, fr *frame, args []value) value {
+	st := args[0].(iface).v.(*opaque).data.(*ctxState)
+	root := st
+	for root.parent != nil {
+		root = root.parent
+	}
+	if !root.done.closed {
+		root.err = "context canceled"
+		m.chanClose(root.done)
+	}
+	return nil
+}
+
+func iContextWithValue(m *machine, fr *frame, args []value) value {
+	p := args[0].(iface)
+	op, ok := p.v.(*opaque)
+	if !ok || op.kind != "ctx" {
+		panic(cut{"context.WithValue on a context the engine did not create"})
+	}
+	ps := op.data.(*ctxState)
+	k := args[1].(iface)
+	return m.ctxValue(&ctxState{parent: ps, done: ps.done, key: k.v, keyT: k.t, val: args[2]})
+}
 
 func (m *machine) callOpaqueMethodExt(fr *frame, om *opaqueMethod, args []value) value {
+	if om.obj.kind == "ctx" {
+		st := om.obj.data.(*ctxState)
+		switch om.name {
+		case "Done":
+			return st.done
+		case "Err":
+			root := st
+			for root.parent != nil {
+				root = root.parent
+			}
+			if root.err == "" {
+				return iface{}
+			}
+			return m.errorsNew(root.err)
+		case "Value":
+			k := args[1].(iface)
+			for s := st; s != nil; s = s.parent {
+				if s.keyT != nil && sameType(s.keyT, k.t) {
+					if r, ok := equals(s.keyT, s.key, k.v).(bool); ok && r {
+						return s.val
+					}
+				}
+			}
+			return iface{}
+		}
+	}
 	panic(cut{"method " + om.name + " on engine object " + om.obj.kind + " is not modelled"})
 }
 
-// bufferWrite appends text to a *bytes.Buffer held in target memory (not yet modelled).
-func bufferWrite(m *machine, t types.Type, p *value, text *Term) bool { return false }
+// ---------- bytes.Buffer (content kept per buffer object) ----------
+
+func (m *machine) bufferOf(p *value) *value {
+	if m.buffers == nil {
+		m.buffers = map[*value]*value{}
+	}
+	b, ok := m.buffers[p]
+	if !ok {
+		v := value("")
+		b = &v
+		m.buffers[p] = b
+	}
+	return b
+}
+
+// bufferWrite appends text to a *bytes.Buffer held in target memory.
+func bufferWrite(m *machine, t types.Type, p *value, text *Term) bool {
+	if t.String() != "*bytes.Buffer" {
+		return false
+	}
+	b := m.bufferOf(p)
+	*b = fromTerm(mkConcat(toTerm(*b), text))
+	return true
+}
+
+func iBufferWriteTo(m *machine, fr *frame, args []value) value {
+	p := args[0].(*value)
+	b := m.bufferOf(p)
+	text := toTerm(*b)
+	*b = ""
+	if s, ok := fromTerm(text).(string); ok && s == "" {
+		return tuple{int64(0), iface{}}
+	}
+	m.writeTo(fr, args[1], text)
+	return tuple{fromTerm(mkLen(text)), iface{}}
+}
+
+func iBufferString(m *machine, fr *frame, args []value) value {
+	return *m.bufferOf(args[0].(*value))
+}
+
+func iBufferLen(m *machine, fr *frame, args []value) value {
+	return fromTerm(mkLen(toTerm(*m.bufferOf(args[0].(*value)))))
+}
+
+func iBufferWriteString(m *machine, fr *frame, args []value) value {
+	b := m.bufferOf(args[0].(*value))
+	t := toTerm(args[1])
+	*b = fromTerm(mkConcat(toTerm(*b), t))
+	return tuple{fromTerm(mkLen(t)), iface{}}
+}
